@@ -99,7 +99,9 @@ def run(ctx):
                     "interval loss from learner.data at every admissible output range, the proportional expected losses and the "
                     "reported maximum.",
         trusted=TRUSTED,
-        assumptions=["points inside the bounds; finite values; batched tells only once both end points are known or pending"],
+        assumptions=["points inside the bounds; finite values",
+                     "generated histories batch only once both end points are known or pending (the property's proviso); the theorems no "
+                     "longer need it (ValidOps = points in bounds, non-empty batches) and C02 generates the other histories"],
         partial=PARTIAL,
     )
 
